@@ -6,7 +6,7 @@ from sa.refnorm import functions_of
 head=Program.from_dir('/repo')
 verbose='-v' in sys.argv
 for name in [a for a in sys.argv[1:] if a!='-v']:
-    tmp=scratch_with_patch(f'/verif/selftest/{"refactorings4" if name.startswith("U") else "refactorings3" if name.startswith("T") else ("refactorings2" if name.startswith("S") else "refactorings")}/{name}/patch.diff')
+    tmp=scratch_with_patch(f'/verif/selftest/{"refactorings5" if name.startswith("V") else "refactorings4" if name.startswith("U") else "refactorings3" if name.startswith("T") else ("refactorings2" if name.startswith("S") else "refactorings")}/{name}/patch.diff')
     try:
         v=Program.from_dir(tmp)
     finally:
